@@ -361,6 +361,80 @@ def closure_loop_program(w, mutual):
     return forms
 
 
+# ---------------------------------------------------------------- leaf law: the numeric tower at the boundaries
+# (TLC's integers are 32-bit and it has no floats: what the Machine states for small numbers - int if every argument is
+# an int, wraparound-free there - is continued here to the 64-bit boundaries with Python's exact integers as the oracle)
+M64 = 1 << 64
+
+
+def wrap(n):
+    n &= M64 - 1
+    return n - M64 if n >= (1 << 63) else n
+
+
+def arith_oracle(op, args):
+    """('int', n) | ('float', f) | ('float-any',) for NaN / infinities"""
+    isf = any(isinstance(a, float) for a in args)
+    if op in "+*-":
+        if not isf:
+            if op == "+":
+                return ("int", wrap(sum(args)))
+            if op == "*":
+                p = 1
+                for a in args:
+                    p = wrap(p * a)
+                return ("int", p)
+            if not args:
+                return ("int", 0)
+            return ("int", wrap(-args[0]) if len(args) == 1 else wrap(args[0] - sum(args[1:])))
+        fs = [float(a) for a in args]
+        if op == "+":
+            return ("float", sum(fs))          # dyadic operands: exact, so the order of addition is immaterial
+        if op == "*":
+            p = 1.0
+            for a in fs:
+                p *= a
+            return ("float", p)
+        return ("float", -fs[0] if len(fs) == 1 else fs[0] - sum(fs[1:]))
+    # division: left to right; an int while both are ints and the division is exact, a float from then on
+    if not args:
+        return ("int", 1)
+    seq = [1] + list(args) if len(args) == 1 else list(args)
+    acc = seq[0]
+    for y in seq[1:]:
+        if isinstance(acc, int) and isinstance(y, int):
+            if y == 0:
+                return ("float-any",)
+            if acc % y == 0:
+                acc = wrap(acc // y) if not (acc == -(1 << 63) and y == -1) else -(1 << 63)
+                continue
+            acc = float(acc) / float(y)
+        else:
+            if float(y) == 0.0:
+                return ("float-any",)
+            acc = float(acc) / float(y)
+    return ("int", acc) if isinstance(acc, int) else ("float", acc)
+
+
+def arith_cases(rnd, n):
+    big = [0, 1, -1, 2, 3, -7, (1 << 63) - 1, -(1 << 63), (1 << 62), (1 << 32), -(1 << 31), 1000000007]
+    small = [0, 1, -1, 2, 3, 5, -4, 12]
+    fl = [0.5, 1.5, -2.5, 2.0, 0.0, 0.25, 8.0, -0.125]
+    out = []
+    for _ in range(n):
+        op = rnd.choice("+-*/")
+        k = rnd.choice([0, 1, 2, 2, 3, 4])
+        fam = rnd.random()
+        if fam < 0.45:
+            args = [rnd.choice(big) for _ in range(k)]
+        elif fam < 0.6:
+            args = [rnd.choice(small) for _ in range(k)]
+        else:
+            args = [rnd.choice(small + fl) for _ in range(k)]
+        out.append((op, args))
+    return out
+
+
 def run(tier):
     V = Verdict("C01", tier)
     work = Work("C01")
@@ -413,6 +487,24 @@ def _run(V, work, tier):
             V.sample({"kind": kind, "program": drv[i]["seq"][0][-500:], "value": str(mach.nm(model[i][0]["v"]))[:100]})
     V.coverage["programs_by_family"] = cnt
     V.coverage["traces_validated_against_impl"] = len(progs_)
+    # ---- leaf law: arithmetic at the 64-bit boundaries ---------------------------------------------------------
+    ac = arith_cases(rnd, 6000 if thorough else 1500)
+    ares = driver_json(binary, ["run"], [{"id": i, "seq": ["(%s %s)" % (op, " ".join(repr(a) for a in args))], "cfg": {"nocount": True, "nostdlib": True}} for i, (op, args) in enumerate(ac)])
+    for r in ares:
+        op, args = ac[r["id"]]
+        ev = r["runs"][0]["evals"][0]
+        want = arith_oracle(op, args)
+        v = ev["v"]
+        src = "(%s %s)" % (op, " ".join(repr(a) for a in args))
+        if v["t"] == "err":
+            V.add(None, "leaf law: %s raises %s" % (src, (ev.get("err") or {}).get("msg")), {"src": src})
+        elif want[0] == "int" and not (v["t"] == "int" and v["n"] == want[1]):
+            V.add(None, "leaf law: %s gives %s, exact 64-bit arithmetic gives the int %d" % (src, json.dumps(v), want[1]), {"src": src})
+        elif want[0] == "float" and not (v["t"] == "float" and float(v["s"]) == want[1]):
+            V.add(None, "leaf law: %s gives %s, the numeric tower gives the float %r" % (src, json.dumps(v), want[1]), {"src": src})
+        elif want[0] == "float-any" and v["t"] != "float":
+            V.add(None, "leaf law: %s gives %s, a float (infinity or NaN) was expected" % (src, json.dumps(v)), {"src": src})
+    V.coverage["arithmetic_leaf_cases"] = len(ac)
     V.coverage["exhaustive"] = False
     V.coverage["explanation"] = "scope family: all 343 nestings of 3 binders x sampled mutation/capture patterns; binding family: every formal list of <= 3 names x 0..4 arguments x 3 call paths (exhaustive); %d seeded typed random programs" % cnt.get("random", 0)
     return V.finish()
